@@ -281,6 +281,13 @@ def run_budgeted(fn, pdf, budget, seconds=20):
         out = ("timeout", "%ds" % seconds)
     except (AssertionError, PSException) as e:
         out = ("family", type(e).__name__)
+    except ImportError as e:
+        # image export of some formats needs the optional Pillow package, which this sandbox does not have: the library
+        # reports that with its documented ImportError; anything else that fails to import is a leak
+        if "Pillow" in str(e) or "PIL" in str(e):
+            out = ("family", "ImportError(optional dependency)")
+        else:
+            out = ("leak", "ImportError %s" % e)
     except RecursionError:
         out = ("recursion", None)
     except MemoryError:
